@@ -9,7 +9,7 @@ func init() {
 		Assumptions: []string{"gc compiler struct layout (types.SizesFor(\"gc\", \"amd64\"))"},
 		Run: func(c *Ctx) {
 			c.Do("C14.a", "L2+L9 accounting siblings", 15, func() { clAccounting(c); clRestoreItemSize(c); clLinkCASWhoMay(c) })
-			c.Do("C14.b", "L5+L1 winner-only soft delete accounting; upper-level links keep the sub-sequence shape", 3, func() { clSoftDeleteTable(c); clInsertStopsWhenMarked(c); clAssembleTable(c); clInsertPublish(c) })
+			c.Do("C14.b", "L5+L1 winner-only soft delete accounting; upper-level links keep the sub-sequence shape", 3, func() { clSoftDeleteTable(c); clInsertStopsWhenMarked(c); clAssembleTable(c); clInsertPublish(c); clTowerLinkedToTop(c) })
 			c.Do("C14.c", "L7 Merge/Apply exhaustive", 20, func() { clStatsExhaustive(c) })
 			c.Do("C14.d", "L4+L3 local statistics owners", 10, func() { clLocalStatsOwners(c); clStatsAddOnOwnObject(c) })
 			c.Do("C14.e", "L8 node layout", 40, func() { clNodeLayout(c) })
